@@ -131,4 +131,145 @@ theorem signedAsSigned_fn_eq (TS TD : IntTy) (h : Heap) (src dst : Buf)
       simp only [ok_bind, store_tail, Gen.SignedAsSigned_k, hge, if_false]
       by_cases hx : x > 0 <;> simp only [hx, if_true, if_false] <;> first | done | rfl
 
+/-- **`SignedAsUnsigned`, whole, is the conversion skeleton around its regenerated kernel** -/
+theorem signedAsUnsigned_fn_eq (TS TD : IntTy) (h : Heap) (src dst : Buf)
+    (hcell0 : min src.len dst.len ≠ 0 → (src.sample h (0 : Int)).isSome)
+    (hs53 : src.ch < 2^53) (hsn : src.len < 2^53) (hd53 : dst.ch < 2^53) (hdn : dst.len < 2^53) :
+    Gen.SignedAsUnsigned_fn TS TD h dst src
+      = (convertG (Gen.SignedAsUnsigned_k TS TD src.depth dst.depth)
+          (decide (src.depth ≥ dst.depth) && (Gen.Scale TS (src.depth : Int) (dst.depth : Int) == 0)) h src dst).bind
+            fun h' n => .ok h' (dst, (n : Int)) := by
+  unfold Gen.SignedAsUnsigned_fn convertG
+  simp only [Gen.bitDepth_BitDepth]
+  by_cases hge : (src.depth : Int) ≥ (dst.depth : Int)
+  · have hdec : decide (src.depth ≥ dst.depth) = true := by simp; omega
+    simp only [hge, if_true, hdec, Bool.true_and]
+    by_cases hs0 : Gen.Scale TS (src.depth : Int) (dst.depth : Int) = 0
+    · simp only [hs0, beq_self_eq_true, and_true]
+      by_cases hg : src.ch = dst.ch ∧ min src.len dst.len ≠ 0
+      · rw [if_pos hg]
+        refine divzero_frame h src dst hg.1 hg.2 (hcell0 hg.2) _ ?_ _
+        intro h2 hc2
+        obtain ⟨x, hx⟩ := Option.isSome_iff_exists.mp hc2
+        rw [sample_eq, hx]
+        simp [ok_bind, nonZero_zero, Res.ofOption, Res.bind]
+      · rw [if_neg hg]
+        exact trivial_frame _ h src dst (by omega) _ _
+    · have hb : (Gen.Scale TS (src.depth : Int) (dst.depth : Int) == 0) = false := by simpa using hs0
+      simp only [hb, Bool.false_eq_true, and_false, if_false]
+      apply conv_frame _ h src dst hs53 hsn hd53 hdn
+      intro i h
+      rw [sample_eq]
+      unfold stepM
+      cases src.sample h (i : Int) with
+      | none => simp [Res.bind]
+      | some x =>
+        simp only [ok_bind, nonZero_ne _ hs0, Res.ofOption, store_tail, Gen.SignedAsUnsigned_k, hge, if_true]
+        first | done | rfl
+  · have hdec : decide (src.depth ≥ dst.depth) = false := by simp; omega
+    simp only [hge, if_false, hdec, Bool.false_and, Bool.false_eq_true, and_false]
+    apply conv_frame _ h src dst hs53 hsn hd53 hdn
+    intro i h
+    rw [sample_eq]
+    unfold stepM
+    cases src.sample h (i : Int) with
+    | none => simp [Res.bind]
+    | some x =>
+      simp only [ok_bind, store_tail, Gen.SignedAsUnsigned_k, hge, if_false]
+      split <;> rename_i hx <;> simp only [hx, if_true, if_false] <;> first | done | rfl
+
+/-- **`UnsignedAsSigned`, whole, is the conversion skeleton around its regenerated kernel** -/
+theorem unsignedAsSigned_fn_eq (TS TD : IntTy) (h : Heap) (src dst : Buf)
+    (hcell0 : min src.len dst.len ≠ 0 → (src.sample h (0 : Int)).isSome)
+    (hs53 : src.ch < 2^53) (hsn : src.len < 2^53) (hd53 : dst.ch < 2^53) (hdn : dst.len < 2^53) :
+    Gen.UnsignedAsSigned_fn TS TD h dst src
+      = (convertG (Gen.UnsignedAsSigned_k TS TD src.depth dst.depth)
+          (decide (src.depth ≥ dst.depth) && (Gen.Scale TS (src.depth : Int) (dst.depth : Int) == 0)) h src dst).bind
+            fun h' n => .ok h' (dst, (n : Int)) := by
+  unfold Gen.UnsignedAsSigned_fn convertG
+  simp only [Gen.bitDepth_BitDepth]
+  by_cases hge : (src.depth : Int) ≥ (dst.depth : Int)
+  · have hdec : decide (src.depth ≥ dst.depth) = true := by simp; omega
+    simp only [hge, if_true, hdec, Bool.true_and]
+    by_cases hs0 : Gen.Scale TS (src.depth : Int) (dst.depth : Int) = 0
+    · simp only [hs0, beq_self_eq_true, and_true]
+      by_cases hg : src.ch = dst.ch ∧ min src.len dst.len ≠ 0
+      · rw [if_pos hg]
+        refine divzero_frame h src dst hg.1 hg.2 (hcell0 hg.2) _ ?_ _
+        intro h2 hc2
+        obtain ⟨x, hx⟩ := Option.isSome_iff_exists.mp hc2
+        rw [sample_eq, hx]
+        simp [ok_bind, nonZero_zero, Res.ofOption, Res.bind]
+      · rw [if_neg hg]
+        exact trivial_frame _ h src dst (by omega) _ _
+    · have hb : (Gen.Scale TS (src.depth : Int) (dst.depth : Int) == 0) = false := by simpa using hs0
+      simp only [hb, Bool.false_eq_true, and_false, if_false]
+      apply conv_frame _ h src dst hs53 hsn hd53 hdn
+      intro i h
+      rw [sample_eq]
+      unfold stepM
+      cases src.sample h (i : Int) with
+      | none => simp [Res.bind]
+      | some x =>
+        simp only [ok_bind, nonZero_ne _ hs0, Res.ofOption, store_tail, Gen.UnsignedAsSigned_k, hge, if_true]
+        first | done | rfl
+  · have hdec : decide (src.depth ≥ dst.depth) = false := by simp; omega
+    simp only [hge, if_false, hdec, Bool.false_and, Bool.false_eq_true, and_false]
+    apply conv_frame _ h src dst hs53 hsn hd53 hdn
+    intro i h
+    rw [sample_eq]
+    unfold stepM
+    cases src.sample h (i : Int) with
+    | none => simp [Res.bind]
+    | some x =>
+      simp only [ok_bind, store_tail, Gen.UnsignedAsSigned_k, hge, if_false]
+      split <;> rename_i hx <;> simp only [hx, if_true, if_false] <;> first | done | rfl
+
+/-- **`UnsignedAsUnsigned`, whole, is the conversion skeleton around its regenerated kernel** -/
+theorem unsignedAsUnsigned_fn_eq (TS TD : IntTy) (h : Heap) (src dst : Buf)
+    (hcell0 : min src.len dst.len ≠ 0 → (src.sample h (0 : Int)).isSome)
+    (hs53 : src.ch < 2^53) (hsn : src.len < 2^53) (hd53 : dst.ch < 2^53) (hdn : dst.len < 2^53) :
+    Gen.UnsignedAsUnsigned_fn TS TD h dst src
+      = (convertG (Gen.UnsignedAsUnsigned_k TS TD src.depth dst.depth)
+          (decide (src.depth ≥ dst.depth) && (Gen.Scale TS (src.depth : Int) (dst.depth : Int) == 0)) h src dst).bind
+            fun h' n => .ok h' (dst, (n : Int)) := by
+  unfold Gen.UnsignedAsUnsigned_fn convertG
+  simp only [Gen.bitDepth_BitDepth]
+  by_cases hge : (src.depth : Int) ≥ (dst.depth : Int)
+  · have hdec : decide (src.depth ≥ dst.depth) = true := by simp; omega
+    simp only [hge, if_true, hdec, Bool.true_and]
+    by_cases hs0 : Gen.Scale TS (src.depth : Int) (dst.depth : Int) = 0
+    · simp only [hs0, beq_self_eq_true, and_true]
+      by_cases hg : src.ch = dst.ch ∧ min src.len dst.len ≠ 0
+      · rw [if_pos hg]
+        refine divzero_frame h src dst hg.1 hg.2 (hcell0 hg.2) _ ?_ _
+        intro h2 hc2
+        obtain ⟨x, hx⟩ := Option.isSome_iff_exists.mp hc2
+        rw [sample_eq, hx]
+        simp [ok_bind, nonZero_zero, Res.ofOption, Res.bind]
+      · rw [if_neg hg]
+        exact trivial_frame _ h src dst (by omega) _ _
+    · have hb : (Gen.Scale TS (src.depth : Int) (dst.depth : Int) == 0) = false := by simpa using hs0
+      simp only [hb, Bool.false_eq_true, and_false, if_false]
+      apply conv_frame _ h src dst hs53 hsn hd53 hdn
+      intro i h
+      rw [sample_eq]
+      unfold stepM
+      cases src.sample h (i : Int) with
+      | none => simp [Res.bind]
+      | some x =>
+        simp only [ok_bind, nonZero_ne _ hs0, Res.ofOption, store_tail, Gen.UnsignedAsUnsigned_k, hge, if_true]
+        first | done | rfl
+  · have hdec : decide (src.depth ≥ dst.depth) = false := by simp; omega
+    simp only [hge, if_false, hdec, Bool.false_and, Bool.false_eq_true, and_false]
+    apply conv_frame _ h src dst hs53 hsn hd53 hdn
+    intro i h
+    rw [sample_eq]
+    unfold stepM
+    cases src.sample h (i : Int) with
+    | none => simp [Res.bind]
+    | some x =>
+      simp only [ok_bind, store_tail, Gen.UnsignedAsUnsigned_k, hge, if_false]
+      split <;> rename_i hx <;> simp only [hx, if_true, if_false] <;> first | done | rfl
+
 end Sig.GenEq
